@@ -3,8 +3,9 @@
 must PASS) and the whole suite with the patch applied (must PASS). usage: confirm_seed.py Cxx N"""
 import os, re, subprocess, sys, json
 cid, n = sys.argv[1], sys.argv[2]
-wt = "/tmp/seed/%s" % cid
-out = "/tmp/seed/%s-out" % cid
+BASE = os.environ.get("SEED_BASE", "/tmp/seed")
+wt = "%s/%s" % (BASE, cid)
+out = "%s/%s-out" % (BASE, cid)
 run = open("%s/demo%s/RUN.md" % (out, n)).read()
 install, demo = [], None
 for ln in run.split("\n"):
@@ -13,7 +14,7 @@ for ln in run.split("\n"):
         install.append(c)
     elif re.search(r"(^|\s)cargo (test|run) ", c) and "--workspace" not in c and demo is None:
         demo = c[c.index("cargo "):]
-env = dict(os.environ, CARGO_TARGET_DIR="/tmp/seed/%s-target" % cid, CARGO_NET_OFFLINE="true", RUST_BACKTRACE="0")
+env = dict(os.environ, CARGO_TARGET_DIR="%s/%s-target" % (BASE, cid), CARGO_NET_OFFLINE="true", RUST_BACKTRACE="0")
 clean = "git checkout -q -- . && git clean -qfd"
 subprocess.run(clean, shell=True, cwd=wt)
 res = []
